@@ -215,6 +215,8 @@ def hll_value(kind, i):
 
 def _hll_history(a):
     sk = HyperLogLogWCache(0.02)
+    decoy = HyperLogLogWCache(0.02) if a.get('decoy') else None
+    decoy_n = 0
     scaled = a.get('scaled_p')
     notes = {}
     if scaled:
@@ -249,6 +251,14 @@ def _hll_history(a):
 
     for step, op in enumerate(a['ops']):
         k = op[0]
+        if decoy is not None:
+            for _ in range(3):
+                decoy.add(f'decoy-{decoy_n}')
+                decoy_n += 1
+            decoy.add('decoy-0')
+            if len(decoy) != decoy_n:
+                problems.append({'where': f'step {step}', 'kind': 'second-sketch-disturbed', 'distinct': decoy_n, 'len': len(decoy)})
+                break
         if k == 'add_new':
             n = op[1]
             idx = list(range(distinct, distinct + n))
@@ -305,6 +315,7 @@ def job_hll(job):
 def _cms_history(a):
     np.random.seed(a['np_seed'])
     sk = CountMinSketch(a['depth'], a['width'])
+    decoy = CountMinSketch(a['depth'], a['width']) if a.get('decoy') else None
     true = {}
     total = 0
     problems = []
@@ -341,6 +352,8 @@ def _cms_history(a):
             problems.append({'step': step, 'kind': 'row-sum', 'rows': [int(r) for r in rows], 'total': total})
 
     for step, op in enumerate(a['ops']):
+        if decoy is not None:
+            decoy.add(f'decoy-{step % 7}', 3)
         if op[0] == 'add':
             _, x, w = op
             if w == 1 and step % 2 == 0:
@@ -362,6 +375,8 @@ def _cms_history(a):
 
 
 def _counter_history(a):
+    if a.get('multi'):
+        return _multi_counter_history(a)
     bound = a['bound']
     c = PrimitiveConstrainedCounter(bound)
     true = {}
@@ -389,6 +404,39 @@ def _counter_history(a):
         if problems:
             break
     return {'problems': problems[:3], 'reached_bound': reached, 'distinct': len(true)}
+
+
+def _multi_counter_history(a):
+    """Several bounded counters alive in the same process (what the pipeline does: one per column), fed
+    interleaved; each one is checked against its own exact model after every step."""
+    bounds = a['bounds']
+    cs = [PrimitiveConstrainedCounter(b) if b is not None else PrimitiveConstrainedCounter() for b in bounds]
+    trues = [dict() for _ in bounds]
+    problems = []
+    reached = False
+    for step, (ci, x) in enumerate(a['items']):
+        cs[ci].add(x)
+        trues[ci][x] = trues[ci].get(x, 0) + 1
+        for k, (c, true, bound) in enumerate(zip(cs, trues, bounds)):
+            bound = bound if bound is not None else 30000
+            dc = c.default_counter
+            if len(dc) > bound:
+                problems.append({'step': step, 'kind': 'tracks-more-than-bound', 'counter': k, 'tracked': len(dc), 'bound': bound})
+            for key, v in dc.items():
+                if v > true.get(key, 0):
+                    problems.append({'step': step, 'kind': 'over-count', 'counter': k, 'item': key, 'count': v, 'true': true.get(key, 0)})
+                    break
+            if len(true) < bound:
+                if dict(dc) != true:
+                    problems.append({'step': step, 'kind': 'not-exact-below-bound', 'counter': k, 'distinct_seen': len(true), 'bound': bound,
+                                     'diff': sorted(set(dc.items()) ^ set(true.items()), key=repr)[:4]})
+            else:
+                reached = True
+            if problems:
+                break
+        if problems:
+            break
+    return {'problems': problems[:3], 'reached_bound': reached, 'distinct': max(len(t) for t in trues), 'counters': len(bounds)}
 
 
 @register('hist.cms')
